@@ -163,7 +163,8 @@ def correspondence(ctx, model_ok, tmp):
                     out = "True" if reg.registerCollection(cname(c), CT[k]) else "False"
                 except Exception as e:
                     out = classify(e)
-                want = "False" if c in o_colls else "True"
+                # get-or-create; an existing name of another type is a conflict (finding C20-b: it used to be ignored silently)
+                want = ("False" if o_colls[c] == k else "err ConflictingDefinitionError") if c in o_colls else "True"
                 if c not in o_colls:
                     o_colls[c] = k
                     if k == "C":
